@@ -50,6 +50,8 @@ func replayOps(s *coreSim, ops []string) {
 			}
 		case "dropall":
 			s.pend[e] = nil
+		case "heal": // heal <e> <now> <limit-ms> <0|1 update driver>: healed network, both sides driven, readers reading
+			s.healAndCheck(uint32(ai(3)), ai(4) == 1)
 		case "flush":
 			s.Flush(e, ai(3) == int(IKCP_FLUSH_FULL))
 		case "update":
